@@ -299,7 +299,12 @@ class ContractMixin:
         # result
         if c.generator:
             rs = c.result if c.result.kind == "seq" else Spec("seq", c.result)
-            res = Sym("seq", self.fresh_term(st, "yielded", SeqV), rs)
+            if getattr(c, "functional", False):
+                flat = [box(v, st) for v in env.values() if v.kind != "pyobj"]
+                f = uf("fn:" + (getattr(c, "fn_name", None) or c.qualname), *([V] * len(flat)), V)
+                res = Sym("seq", unS(f(*flat) if flat else CONSTS.get("fn", c.qualname)), rs)
+            else:
+                res = Sym("seq", self.fresh_term(st, "yielded", SeqV), rs)
         else:
             res = self.fresh_result(c, env, st)
         env2 = dict(env)
